@@ -290,6 +290,10 @@ func editMenu() []hop {
 	for i := 0; i < 3; i++ {
 		m = append(m, hop{Op: "Merge", I: i})
 	}
+	// three sources: the header and two partners (I = 3*first + second)
+	for _, pq := range [][2]int{{0, 2}, {2, 0}, {0, 1}, {1, 2}, {2, 2}} {
+		m = append(m, hop{Op: "Merge", I: 3 + 3*pq[0] + pq[1]})
+	}
 	for i := range c07lines {
 		m = append(m, hop{Op: "Unmarshal", I: i, N: c07lines[i]})
 	}
@@ -341,9 +345,11 @@ type frozenHeader struct {
 	why  string
 }
 
+// snapshot is everything a header exposes plus its private identity tables (name -> id maps,
+// ids and owner flags, through the verif hook): a header that must stay intact must keep all of it.
 func snapshot(h *sam.Header) string {
 	t, _ := h.MarshalText()
-	return string(t) + "\n" + describe(h)
+	return string(t) + "\n" + describe(h) + "\n" + h.VerifDump()
 }
 
 func applyOp(c *Ctx, st *editState, o hop, cas c07edit) bool {
@@ -385,9 +391,14 @@ func applyOp(c *Ctx, st *editState, o hop, cas c07edit) bool {
 		st.frozen = append(st.frozen, frozenHeader{h, snapshot(h), "the original of a Clone"})
 		st.h = h.Clone()
 	case "Merge":
-		p := partner(o.I)
-		srcs := []*sam.Header{h, p}
-		before := []string{snapshot(h), snapshot(p)}
+		srcs := []*sam.Header{h, partner(o.I)}
+		if o.I >= 3 {
+			srcs = []*sam.Header{h, partner((o.I - 3) / 3), partner((o.I - 3) % 3)}
+		}
+		var before []string
+		for _, s := range srcs {
+			before = append(before, snapshot(s))
+		}
 		var names [][]string
 		var lens [][]int
 		for _, s := range srcs {
@@ -476,6 +487,11 @@ func checkState(c *Ctx, st *editState, cas c07edit) bool {
 			return false
 		}
 	}
+	// ownership, directly: every item reachable from the header names this header as its owner
+	if d := h.VerifDump(); strings.Contains(d, "ownfalse") {
+		c.Violate("edit:item-owned-by-another-header:after-"+last, fmt.Sprintf("an item reachable from the header is owned by another header (or none): %s\nhistory: %s", d, hist), cas)
+		return false
+	}
 	// ownership: an item reachable from the header cannot be added to another header
 	other, _ := sam.NewHeader(nil, nil)
 	for _, r := range h.Refs() {
@@ -526,7 +542,7 @@ func runEdit(c *Ctx, cas c07edit) (key string, ok bool) {
 }
 
 func c07(c *Ctx) {
-	c.Rule = "round trip: each header section enumerated as a full product with the other sections at two contexts (empty, populated): @HD version {'' , 1.6} x SO (4) x GO (4) x 0-2 extra tags; every list of 0-3 references over 6 variants (bare, M5, AS+SP, UR file, UR http, custom tag); every list of 0-2 read groups over 8 variants (bare, all optional fields, dates in UTC/+0930/-0700/date-only, negative PI, FO/KS '*'); lists of 0-2 programs over 2 variants; comments {none, x, 'a b', two}; under time.Local = UTC and +09:30; text and binary: parse(serialise(h)) serialises identically and exposes equal values. edit histories: BFS with de-duplication (key = text + private identity tables) to depth 4 (thorough 5) over {AddReference of 4 prepared references (two share a name with different tags, one equals an existing one), RemoveReference(i), SetName, Add/Remove read group and program, SetName/SetUID, Clone (continue on the clone, original must stay intact), MergeHeaders with 3 partner headers, UnmarshalText of 7 extra lines incl. duplicate names}; in every state: ids equal indexes, names unique, items owned, originals untouched, merge links correct, serialisation round trip. Non-trivial: states with at least two items."
+	c.Rule = "round trip: each header section enumerated as a full product with the other sections at two contexts (empty, populated): @HD version {'' , 1.6} x SO (4) x GO (4) x 0-2 extra tags; every list of 0-3 references over 6 variants (bare, M5, AS+SP, UR file, UR http, custom tag); every list of 0-2 read groups over 8 variants (bare, all optional fields, dates in UTC/+0930/-0700/date-only, negative PI, FO/KS '*'); lists of 0-2 programs over 2 variants; comments {none, x, 'a b', two}; under time.Local = UTC and +09:30; text and binary: parse(serialise(h)) serialises identically and exposes equal values. edit histories: BFS with de-duplication (key = text + private identity tables) to depth 4 (thorough 5) over {AddReference of 4 prepared references (two share a name with different tags, one equals an existing one), RemoveReference(i), SetName, Add/Remove read group and program, SetName/SetUID, Clone (continue on the clone, original must stay intact), MergeHeaders with each of 3 partner headers and with 5 ordered pairs of them (three sources), UnmarshalText of 7 extra lines incl. duplicate names}; in every state: ids equal indexes, names unique, items owned, originals untouched, merge links correct, serialisation round trip. Non-trivial: states with at least two items."
 	if c.Replay != nil {
 		var probe struct {
 			Ops []hop `json:"ops"`
